@@ -2483,7 +2483,7 @@ int call_function_interactive (interactive_t * i, char *str) {
    */
   DEBUG_CHECK (!(sent->flags & V_FUNCTION), "input_to must be function pointer");
   funp = sent->function.f;
-  funp->hdr.ref++; /* by local variable funp */
+  push_funp (funp); /* our reference, kept on the value stack: an error in the callback releases it */
 
   args = sent->args;
   if (args)
@@ -2533,7 +2533,7 @@ int call_function_interactive (interactive_t * i, char *str) {
    *     foo(arg1, arg2, str, arg3, arg4) where str is the user input.
    */
   call_function_pointer (funp, num_arg + 1);
-  free_funp (funp); /* by local variable funp */
+  pop_stack (); /* our reference to funp */
   funp = 0;
   return 1;
 }				/* call_function_interactive() */
